@@ -340,6 +340,10 @@ func (w *World) Tick() *gtfsrt.FeedMessage {
 			continue
 		}
 		w.step(tr)
+		if t.Chance(1, 24) {
+			tr.trainID = tr.trainID + "'" // the consist was swapped: same trip, new vehicle id
+			t.Probe("world-vehicle-swap")
+		}
 		if w.Cfg.FlapAssign > 0 && t.Chance(w.Cfg.FlapAssign, 16) {
 			tr.assigned = !tr.assigned
 			t.Probe("world-assign-flap")
@@ -397,11 +401,25 @@ func (w *World) tripDescriptor(tr *train) *gtfsrt.TripDescriptor {
 	return td
 }
 
+// vehicleDescriptor: usually the id; sometimes a label-only or plate-only descriptor (a vehicle
+// whose id string is empty), sometimes id and label.
+func (w *World) vehicleDescriptor(tr *train) *gtfsrt.VehicleDescriptor {
+	switch w.t.Weighted(10, 2, 1, 2) {
+	case 1:
+		return &gtfsrt.VehicleDescriptor{Label: ps("L-" + tr.trainID)}
+	case 2:
+		return &gtfsrt.VehicleDescriptor{LicensePlate: ps("P-" + tr.trainID)}
+	case 3:
+		return &gtfsrt.VehicleDescriptor{Id: ps(tr.trainID), Label: ps("car " + tr.trainID)}
+	}
+	return &gtfsrt.VehicleDescriptor{Id: ps(tr.trainID)}
+}
+
 func (w *World) tripEntities(tr *train) []*gtfsrt.FeedEntity {
 	t := w.t
 	tu := &gtfsrt.TripUpdate{Trip: w.tripDescriptor(tr)}
 	if (!w.Cfg.Nyct || tr.noNyct) && tr.assigned {
-		tu.Vehicle = &gtfsrt.VehicleDescriptor{Id: ps(tr.trainID)}
+		tu.Vehicle = w.vehicleDescriptor(tr)
 	}
 	for i, sp := range tr.remaining {
 		stu := &gtfsrt.TripUpdate_StopTimeUpdate{StopId: ps(sp.stop)}
@@ -433,7 +451,7 @@ func (w *World) tripEntities(tr *train) []*gtfsrt.FeedEntity {
 			vp.CurrentStopSequence = pu32(uint32(len(tr.line) - len(tr.remaining)))
 		}
 		if (!w.Cfg.Nyct || tr.noNyct) && tr.assigned {
-			vp.Vehicle = &gtfsrt.VehicleDescriptor{Id: ps(tr.trainID)}
+			vp.Vehicle = w.vehicleDescriptor(tr)
 		}
 		if t.Chance(1, 3) {
 			vp.Position = &gtfsrt.Position{Latitude: pf32(40.7), Longitude: pf32(-73.9)}
